@@ -22,8 +22,15 @@ def make_base():
     return base
 
 
+def decoy(*args, **kw):
+    return "decoy"
+
+
 def build_tower(layers, top):
     base = make_base()
+    # an ordinary attribute that merely LOOKS like functools.partial's: only real partial objects are unwrapped
+    base.func = decoy
+    base.args, base.keywords = (), {}
     x = base
     for l in layers:          # innermost layer first
         if l == "partial":
@@ -34,6 +41,7 @@ def build_tower(layers, top):
             @functools.wraps(inner)
             def w(*a, _inner=inner, **k):
                 return _inner(*a, **k)
+            w.func = decoy
             x = w
         elif l == "method":
             x = types.MethodType(x, object())
